@@ -561,7 +561,7 @@ def field_closures(ctx, rid):
     NAMED = "Iterator::all(P1,|1|{Option::is_some(C1_0.name)})"
     UNNAMED = "Iterator::all(P1,|1|{Option::is_none(C1_0.name)})"
     exp_sel = ("if(slice::is_empty(P1)){Ok(CompositeIRKind::NoFields)}else{if((%s||%s)){"
-               "if(%s){Ok(CompositeIRKind::Named(Iterator::collect(Iterator::map(P1,|1|{%s}))?))}else{if(%s){Ok(CompositeIRKind::Unnamed(Iterator::collect(Iterator::map(P1,|1|{%s}))?))}else{<diverge>}}"
+               "if(%s){Ok(CompositeIRKind::Named(Iterator::collect(Iterator::map(P1,|1|{%s}))?))}else{early{Not(%s)=><diverge>}Ok(CompositeIRKind::Unnamed(Iterator::collect(Iterator::map(P1,|1|{%s}))?))}"
                "}else{Err(TypegenError::InvalidFields(%s))}}") % (NAMED, UNNAMED, NAMED, ANY, UNNAMED, ANY, ANY)
     expect_term(ctx, rid, "kind-selection", fn["sp"], t, exp_sel,
                 "empty -> NoFields; mixed -> Err(InvalidFields); all named -> Named(order-preserving map); all unnamed -> Unnamed(order-preserving map)")
